@@ -79,7 +79,10 @@ def refname(r):
 def resolve(world, r):
     if isinstance(r, str):
         return world[r]
-    return world[r[0]][selectors.ev(r[1])]
+    o = world[r[0]][selectors.ev(r[1])]
+    for sub in r[2:]:               # sub-slice of a slice (0-based, undocumented; used differentially only)
+        o = o[selectors.ev(sub)]
+    return o
 
 
 def region(world, r):
@@ -225,7 +228,7 @@ def exact_world(world):
 def act_str(a):
     """Readable rendering of an action for messages and samples."""
     def r(x):
-        return x if isinstance(x, str) else f"{x[0]}[{x[1]}]"
+        return x if isinstance(x, str) else f"{x[0]}[{x[1]}]" + ''.join(f"[{y}]" for y in x[2:])
     op = a['op']
     if op == 'transfer':
         return f"transfer({r(a['src'])} -> {r(a['dst'])}, {a['q']!r})"
